@@ -27,7 +27,7 @@ TRUSTED = ("CPython ast", "numpy/pint behave as documented", "S4 operator table 
 def r1_operator_table(run, tree):
     run.rule("C02.R1", "operator table: dunder -> _binary_op(ufunc, self, other, strict, out)", "S4 table + sibling agreement",
              "Python data model", floor=12)
-    ct.check_operator_table(run, tree, optab.ARITH)
+    af.check_operator_table_fold(run, tree, optab.ARITH)
     ct.check_composites(run, tree, ["__rmul__", "__rtruediv__", "__pow__", "__neg__"])
 
 
@@ -36,7 +36,7 @@ def r2_convert_before_combine(run, tree):
              "operands never written", "D7 fold of the repository's own _binary_op/Array.__init__/Array.to over unit and buffer tokens",
              "pint: Quantity.to raises DimensionalityError iff dimensions differ", floor=12)
     af.check_binary_op_fold(run, tree)
-    ct.check_array_constructor(run, tree)
+    af.check_constructor_fold(run, tree)
 
 
 def r3_unit_derivation(run, tree):
@@ -59,9 +59,8 @@ def r4_dtype_gate(run, tree):
 
 
 def r5_to(run, tree):
-    from .units_rules import check_array_to
     run.rule("C02.R5", "Array.to: ratio old/new, identity shortcut, no lossy cast", "D1 + paths", "", floor=3)
-    check_array_to(run, tree)
+    af.check_to_fold(run, tree)
 
 
 def r6_helpers(run, tree):
